@@ -3,7 +3,20 @@ import importlib
 
 from contracts import envs as E
 
-MODULES = ["maze"]
+import glob
+import os
+
+
+def modules():
+    d = os.path.join(os.path.dirname(os.path.dirname(os.path.abspath(__file__))), "contracts")
+    out = []
+    for f in sorted(glob.glob(os.path.join(d, "*.py"))):
+        n = os.path.basename(f)[:-3]
+        if n in ("__init__", "common", "envs"):
+            continue
+        if "\nENV = " in open(f).read():
+            out.append(n)
+    return out
 
 
 def run_env(ctx, module, cfg):
@@ -21,7 +34,7 @@ def run_env(ctx, module, cfg):
 
 def tasks(prop, tier, modules=None):
     out = {}
-    for mod in modules or MODULES:
+    for mod in modules or globals()['modules']():
         m = importlib.import_module("contracts." + mod)
         if hasattr(m, "PROPS") and prop not in m.PROPS:
             continue
